@@ -29,6 +29,8 @@ type StreamSrv struct {
 	entered int
 	// keepGoing: the producer ignores ctx cancellation for one more value
 	obeyCtx bool
+	// prodGate: the producer of stream id waits for this environment event first
+	prodGate map[int]string
 }
 
 func (h *StreamSrv) Entered() int {
@@ -50,6 +52,9 @@ func (h *StreamSrv) Sub(ctx context.Context, id int, n int) (<-chan int, error) 
 		defer close(out)
 		if h.syncK > 0 {
 			h.s.Env("prod-go")
+		}
+		if g := h.prodGate[id]; g != "" {
+			h.s.Env(g)
 		}
 		for j := 0; j < n; j++ {
 			v := id*1000 + j
